@@ -264,12 +264,9 @@ void run_history(Tape &t, Ctx &c) {
 
     bool finite = true;
     for (auto &r : log->coarse) finite = finite && all_finite(r.P) && all_finite(r.R) && all_finite(r.Ac);
-    if (!finite) {
-        c.label("non-finite-hierarchy");
-        // listed finding F-emin: smoothed_aggr_emin divides by a vanishing filtered diagonal / denominator (no guard) -> inf/NaN operators
-        if (ci.name == "smoothed_aggr_emin" && c.known("F-emin")) return;
-        VF_REQUIRE(finite, "transfer or coarse operators contain non-finite values");
-    }
+    // (smoothed_aggr_emin used to produce inf/NaN operators for a vanishing filtered diagonal / omega denominator: fixed in /repo by a58f297,
+    //  regression replay/C03/emin-nonfinite.case)
+    VF_REQUIRE(finite, "transfer or coarse operators contain non-finite values");
 
     Csr<double> K0s = sorted_copy(K0);
     ld worst = 0;
@@ -392,7 +389,7 @@ void run_history(Tape &t, Ctx &c) {
         ++rebuilds;
         Kcur = Knew; is_orig = (kind == 3); pending_changed = (kind == 1 || kind == 4 || kind == 2);
         bool fin = true; for (auto &r : log->coarse) fin = fin && all_finite(r.Ac);
-        if (!fin) { c.label("non-finite-after-rebuild"); VF_REQUIRE(ci.name == "smoothed_aggr_emin", "op " << op << ": rebuild produced non-finite coarse matrices"); break; }
+        VF_REQUIRE(fin, "op " << op << ": rebuild produced non-finite coarse matrices");
         std::vector<LevelView> lw = amgcl_verif::access::levels(*amg);
         std::string when = "op " + std::to_string(op) + " (after rebuild)";
         VF_REQUIRE(lw.size() == L, when << ": number of levels changed from " << L << " to " << lw.size());
